@@ -232,7 +232,7 @@ func hChanges(store *server.Store, dsm *server.DsManager, op server.VerifOp, tok
 func hEntities(store *server.Store, dsm *server.DsManager, op server.VerifOp, tokens map[string]int64) (oo server.VerifOpObs) {
 	oo.Pages = [][]server.VerifEnt{}
 	from := ""
-	for p := 0; p < 10000; p++ {
+	for p := 0; p < 300; p++ {
 		lim := 0
 		if len(op.Limits) > 0 {
 			if p < len(op.Limits) {
